@@ -146,6 +146,7 @@ type Exec struct {
 	skipRecouple bool
 	lastSite     string
 	headStates   map[*ssa.BasicBlock]*State // state at each loop head (after havoc + invariants)
+	curRecv      Val                        // receiver of the interface method call whose site assertions are being evaluated
 }
 
 func (x *Exec) fresh(prefix string) string {
